@@ -218,7 +218,8 @@ def main():
     need_deps = getattr(mod, 'NEEDS_ICONTRACT', False)
     deps_ok = ensure_deps() if need_deps else True
 
-    scratch = os.path.join(VERIF, '.scratch', prop)
+    # one scratch directory per driver invocation: concurrent runs of the same property (seed sweeps) must not delete each other's files
+    scratch = os.path.join(VERIF, '.scratch', '%s.%d' % (prop, os.getpid()))
     shutil.rmtree(scratch, ignore_errors=True)
     os.makedirs(scratch, exist_ok=True)
 
